@@ -19,7 +19,9 @@ def fill_in_map(circuit):
     :rtype: Circuit
 
     The metadata will still contain all the map aliases but they will
-    not be present in any gate.
+    not be present in any gate. The one exception is a macro with a
+    parameter named like the fundamental register: inside its body the
+    register cannot be named, so references through an alias are kept.
 
     """
 
@@ -87,9 +89,15 @@ class MapFiller(Visitor):
         ]
         return sexpr
 
+    # Names of the parameters of the macro being visited
+    shadowing_names = frozenset()
+
     def visit_NamedQubit(self, qubit):
         """Map this to a fundamental register and index and return it."""
         reg, index = qubit.resolve_qubit()
+        if reg.name in self.shadowing_names:
+            # Written out in this macro, reg[index] would name the parameter.
+            return qubit
         return reg[index]
 
     def visit_Register(self, reg):
@@ -114,7 +122,11 @@ class MapFiller(Visitor):
         qubits which have type NamedQubit, so they are easily differentiated
         (unlike at the Jaqal level where they are both text identifiers).
         """
-        gate_block = self.visit(macro.body)
+        self.shadowing_names = frozenset(param.name for param in macro.parameters)
+        try:
+            gate_block = self.visit(macro.body)
+        finally:
+            self.shadowing_names = frozenset()
         sexpr = [
             "macro",
             macro.name,
